@@ -153,6 +153,9 @@ func checkBuild(c *mon.Case, b c16Build) {
 			fs := b.Base.Clone()
 			installOrderHook(c, fs, fmt.Sprintf("%s with %s #%d failing", b.Name, p.kind, k))
 			p.set(fs, k)
+			if p.kind == "write" {
+				fs.FailWriteStyle = k % 3 // (0, err), (len(p), err), a short write
+			}
 			// rotate the error kind: a plain error, and kinds a wrapper might take for success or end of input
 			fs.FailErr = []error{nil, &iofs.PathError{Op: "open", Path: "/blocks/x", Err: syscall.EEXIST}, io.ErrShortWrite, context.Canceled, iofs.ErrExist, store.ErrNotFound{}, &iofs.PathError{Op: "open", Path: "/blocks/x", Err: syscall.ENOENT}, io.EOF}[k%8]
 			var fl ipld.Link
@@ -408,7 +411,7 @@ func TestC16(t *testing.T) {
 			content1 := gen.Content(rr, "rand", 20+rr.Intn(400))
 			content2 := gen.Content(rr, "rand", 20+rr.Intn(400))
 			var l1, l2 ipld.Link
-			var err1, err2 error
+			var err1, err2, quickIncomplete error
 			if !c.Guard("two builds through one link system value", func() {
 				withWidth(3, func() { l1, _, err1 = builder.BuildUnixFSFile(bytes.NewReader(content1), "size-16", ls) })
 				// the owner points the same value at other storage (SetWriteStorage does the same)
@@ -424,11 +427,32 @@ func TestC16(t *testing.T) {
 				default:
 					l2, _, err2 = builder.BuildUnixFSSymlink("elsewhere/"+fmt.Sprint(i), ls)
 				}
+				if i%2 == 1 && err2 == nil {
+					// the same inside one quick-builder session: two trees holding a file with the same
+					// bytes, the second built after the session's link system was pointed at other storage
+					third := store.New()
+					var d2 ipld.Link
+					quickbuilder.Store(ls, func(b *quickbuilder.Builder) error {
+						b.NewMapDirectory(map[string]quickbuilder.Node{"README": b.NewBytesFile(content1), "a": b.NewBytesFile(content2)})
+						ls.StorageWriteOpener = third.OpenWrite
+						ls.StorageReadOpener = third.OpenRead
+						d2 = b.NewMapDirectory(map[string]quickbuilder.Node{"README": b.NewBytesFile(content1), "b": b.NewBytesFile([]byte("other"))}).Link()
+						return nil
+					})
+					if d2 != nil {
+						if _, werr := walkerFor(third).TreeSize(linkCid(d2)); werr != nil {
+							quickIncomplete = werr
+						}
+					}
+				}
 			}) {
 				return
 			}
 			c.Count("builds", 2)
 			c.Count("retargeted_builds", 1)
+			if quickIncomplete != nil {
+				c.Violation("C16|returned-link-incomplete", "a quick-builder directory built after the session's link system was pointed at other storage is not complete in the storage configured then: %v", quickIncomplete)
+			}
 			if err1 != nil || err2 != nil || l1 == nil || l2 == nil {
 				c.Violation("C16|build-error", "builds through a re-targeted link system failed: %v / %v", err1, err2)
 				return
